@@ -73,7 +73,8 @@ LANGS = ['pl', 'pl_PL', 'pl_PL.UTF-8', 'pl_PL.UTF-8@euro', 'pl@euro', 'sr@latin'
          'x-klingon', 'tlh', 'art-lojban', 'und', 'mul', 'zxx', 'qaa', 'aa', 'zu', 'p\u013a', '\u0440\u0443', 'pl\x00', 'p' * 300, 'pl_' + 'P' * 300, 'pl.' + 'x' * 300, 'pl@' + 'x' * 300, 'LL', 'LANGUAGE',
          'None', 'pl_None']
 
-ADDRS = ['Jakub Wilk <jwilk@jwilk.net>', 'jwilk@jwilk.net', '<jwilk@jwilk.net>', 'FULL NAME <EMAIL@ADDRESS>', 'EMAIL@ADDRESS', 'LANGUAGE <LL@li.org>', 'Polish <pl@li.org>', 'A <a@b>',
+ADDRS = ['(' * 1200, 'A <a@b.c> ' + '(' * 700, '(' * 700 + ')' * 700, 'a@b.c (' + '(x)' * 700, '<' * 1200, '"' * 1201, '[' * 1200, 'a@[' + '[' * 900, '\\\\' * 900, 'a@' + 'b.' * 700 + 'c', '(\\\\' * 700,
+         'Jakub Wilk <jwilk@jwilk.net>', 'jwilk@jwilk.net', '<jwilk@jwilk.net>', 'FULL NAME <EMAIL@ADDRESS>', 'EMAIL@ADDRESS', 'LANGUAGE <LL@li.org>', 'Polish <pl@li.org>', 'A <a@b>',
          'A <a@localhost>', 'A <a@example.com>', 'A <a@example.net>', 'A <a@test>', 'A <a@foo.invalid>', 'A <a@foo.local>', 'A <a@foo.onion>', 'A <a@[127.0.0.1]>', 'A <a@127.0.0.1>',
          'A <a@b.>', 'A <a@.b>', 'A <a@b..c>', 'A <@b.c>', 'A <a@>', 'A <@>', 'A <>', '<>', '@', 'A', '', ' ', 'A <a b@c.d>', '"A B" <a@c.d>', 'A (comment) <a@c.d>', 'a@c.d (A)', 'A <a@c.d>, B <b@c.d>',
          'A <a@c.d> B', 'A <<a@c.d>>', 'A <a@c.d', 'A a@c.d>', 'A <a@\u00e4.example>', 'A <\u00e4@example.org>', 'A <a@xn--4ca.example>', 'A <a@EXAMPLE.ORG>', 'A <A@Example.Org>',
